@@ -104,12 +104,12 @@ type WorkerOut struct {
 }
 
 type WorkerViolation struct {
-	Run    int        `json:"run"`
-	Viol   *Violation `json:"viol"`
-	Replay string     `json:"replay"`
-	OpsBefore int     `json:"ops_before"`
-	OpsAfter  int     `json:"ops_after"`
-	Tries     int     `json:"tries"`
+	Run       int        `json:"run"`
+	Viol      *Violation `json:"viol"`
+	Replay    string     `json:"replay"`
+	OpsBefore int        `json:"ops_before"`
+	OpsAfter  int        `json:"ops_after"`
+	Tries     int        `json:"tries"`
 }
 
 type KnownFinding struct {
@@ -152,6 +152,62 @@ func isKnown(known []KnownFinding, v *Violation) *KnownFinding {
 	return nil
 }
 
+func replayName(id string, seed uint64, run int, label string) string {
+	if label != "" {
+		return fmt.Sprintf("%s-s%d-%s.json", id, seed, label)
+	}
+	return fmt.Sprintf("%s-s%d-r%d.json", id, seed, run)
+}
+
+// corpusVariants returns the kept trace itself followed by n seeded
+// variations of it: a few input bytes replaced by other bytes of the input,
+// the input rotated or truncated, buffer geometry nudged. The variations are a
+// pure function of (trace, VERIF_SEED, index).
+func corpusVariants(t *Trace, seed uint64, idx, n int) []*Trace {
+	out := []*Trace{t.Clone()}
+	r := NewRNG(RunSeed(seed, "corpus", idx))
+	mutateInput := func(in []byte) []byte {
+		in = append([]byte(nil), in...)
+		if len(in) == 0 {
+			return in
+		}
+		switch r.Intn(4) {
+		case 0, 1:
+			for k := 1 + r.Intn(3); k > 0; k-- {
+				in[r.Intn(len(in))] = in[r.Intn(len(in))]
+			}
+		case 2:
+			k := r.Intn(len(in))
+			in = append(in[k:], in[:k]...)
+		default:
+			in = in[:len(in)-r.Intn(min(len(in), 8))]
+		}
+		return in
+	}
+	for i := 0; i < n; i++ {
+		c := t.Clone()
+		c.Input = mutateInput(c.Input)
+		for _, tk := range c.Tasks {
+			tk.Input = mutateInput(tk.Input)
+		}
+		if c.P != nil && r.Chance(0.3) {
+			switch r.Intn(3) {
+			case 0:
+				c.P.BlockSize += r.Intn(3)
+			case 1:
+				c.P.WindowSize += r.Intn(3)
+			default:
+				if c.P.BufferSize > 0 {
+					c.P.BufferSize += r.Intn(3)
+				}
+			}
+		}
+		c.Sched = nil
+		out = append(out, c)
+	}
+	return out
+}
+
 func cmdWorker(args []string) int {
 	fs := flag.NewFlagSet("worker", flag.ExitOnError)
 	prop := fs.String("prop", "", "")
@@ -164,6 +220,7 @@ func cmdWorker(args []string) int {
 	runs := fs.Int("runs", 0, "")
 	maxsec := fs.Float64("maxsec", 0, "")
 	shadow := fs.Bool("shadow", false, "only execute the sampled runs (determinism self-check)")
+	corpus := fs.String("corpus", "", "directory with kept counterexamples (<dir>/<property>/*.json)")
 	fs.Parse(args)
 	p := props[*prop]
 	if p == nil {
@@ -180,21 +237,14 @@ func cmdWorker(args []string) int {
 	var digests []uint64
 	var doneRuns []int // runs executed by this process so far, in order
 	const sampleEvery = 40
-	for run := si; run < *runs; run += sn {
-		if *shadow && run%sampleEvery != 0 {
-			continue
-		}
-		if *maxsec > 0 && time.Since(start).Seconds() > *maxsec {
-			wo.Truncated = true
-			break
-		}
-		t := makeTrace(p, *seed, *tier, run)
-		if os.Getenv("LZSIM_TRACE") != "" {
-			fmt.Fprintf(os.Stderr, "run %d\n", run)
-		}
+	// process executes one trace and accounts for it; run < 0 marks a corpus
+	// trace (label names it). It returns true when the worker has to stop.
+	process := func(run int, label string, t *Trace) bool {
 		res := p.Exec(t)
 		prior := doneRuns
-		doneRuns = append(doneRuns, run)
+		if run >= 0 {
+			doneRuns = append(doneRuns, run)
+		}
 		wo.Runs++
 		wo.OpsTotal += int64(res.OpsDone)
 		wo.TicksTotal += res.Ticks
@@ -224,7 +274,7 @@ func cmdWorker(args []string) int {
 			wo.Scheds = append(wo.Scheds, res.SchedHash)
 		}
 		d := res.Digest()
-		if run%sampleEvery == 0 {
+		if run >= 0 && run%sampleEvery == 0 {
 			wo.RunDigests[strconv.Itoa(run)] = d
 			wo.RunDigests["obs"+strconv.Itoa(run)] = res.ObsDigest()
 		}
@@ -242,14 +292,14 @@ func cmdWorker(args []string) int {
 				if wo.KnownSample[k.ID] == "" {
 					wo.KnownSample[k.ID] = fmt.Sprintf("run %d: %s", run, res.Viol.Msg)
 				}
-				continue
+				return false
 			}
 			// minimise, then confirm in a fresh process; a violation that
 			// depends on process-wide library state needs its history
 			before := len(t.Ops)
 			orig := t.Clone()
 			mt, mv := shrinkTrace(p, t, res.Viol, 60*time.Second)
-			path := filepath.Join(*replays, fmt.Sprintf("%s-s%d-r%d.json", p.ID, *seed, run))
+			path := filepath.Join(*replays, replayName(p.ID, *seed, run, label))
 			os.MkdirAll(*replays, 0o755)
 			write := func(tr *Trace, v *Violation, hist []int) bool {
 				c := tr.Clone()
@@ -298,7 +348,55 @@ func cmdWorker(args []string) int {
 				write(mt, mv, nil) // leave the minimised trace; the driver reports non-reproduction
 			}
 			wo.Violations = append(wo.Violations, WorkerViolation{Run: run, Viol: mv, Replay: path, OpsBefore: before, OpsAfter: len(final.Ops)})
-			break // first unknown violation ends this worker
+			return true // first unknown violation ends this worker
+		}
+		return false
+	}
+	// regression corpus: kept counterexamples of earlier findings for this
+	// property (and seeded variations of them) are executed before the seeded
+	// runs, by shard 0 only
+	stopped := false
+	if si == 0 && !*shadow && *corpus != "" {
+		files, _ := filepath.Glob(filepath.Join(*corpus, p.ID, "*.json"))
+		sort.Strings(files)
+		for fi, f := range files {
+			b, err := os.ReadFile(f)
+			if err != nil {
+				fmt.Fprintln(os.Stderr, "lzsim: corpus:", err)
+				return 2
+			}
+			var ct Trace
+			if err := json.Unmarshal(b, &ct); err != nil {
+				fmt.Fprintln(os.Stderr, "lzsim: corpus:", f, err)
+				return 2
+			}
+			ct.Prop, ct.Expect, ct.History = p.ID, nil, nil
+			name := strings.TrimSuffix(filepath.Base(f), ".json")
+			for vi, vt := range corpusVariants(&ct, *seed, fi, 60) {
+				wo.Probes["corpus_traces_executed"]++
+				if stopped = process(-1-vi, fmt.Sprintf("corpus-%s-v%d", name, vi), vt); stopped {
+					break
+				}
+			}
+			if stopped {
+				break
+			}
+		}
+	}
+	for run := si; run < *runs && !stopped; run += sn {
+		if *shadow && run%sampleEvery != 0 {
+			continue
+		}
+		if *maxsec > 0 && time.Since(start).Seconds() > *maxsec {
+			wo.Truncated = true
+			break
+		}
+		t := makeTrace(p, *seed, *tier, run)
+		if os.Getenv("LZSIM_TRACE") != "" {
+			fmt.Fprintf(os.Stderr, "run %d\n", run)
+		}
+		if process(run, "", t) {
+			break
 		}
 	}
 	for k := range states {
@@ -390,6 +488,7 @@ func cmdRun(args []string) int {
 	div := fs.Int("div", 1, "divide the tier's number of runs (reduced exploration, e.g. cross matrix)")
 	maxsec := fs.Float64("maxsec", 0, "wall clock cap per worker (0: tier default)")
 	tmp := fs.String("tmp", os.TempDir(), "")
+	corpus := fs.String("corpus", "", "directory with kept counterexamples (<dir>/<property>/*.json)")
 	fs.Parse(args)
 	p := props[*prop]
 	if p == nil {
@@ -428,7 +527,7 @@ func cmdRun(args []string) int {
 	launch := func(i int, shadow bool) proc {
 		out := filepath.Join(dir, fmt.Sprintf("w%d-%v.json", i, shadow))
 		a := []string{"worker", "-prop", p.ID, "-tier", *tier, "-seed", fmt.Sprint(*seed), "-shard", fmt.Sprintf("%d/%d", i, *workers),
-			"-out", out, "-replays", *replays, "-known", *knownPath, "-runs", fmt.Sprint(runs), "-maxsec", fmt.Sprint(cap)}
+			"-out", out, "-replays", *replays, "-known", *knownPath, "-runs", fmt.Sprint(runs), "-maxsec", fmt.Sprint(cap), "-corpus", *corpus}
 		if shadow {
 			a = append(a, "-shadow", "-shard", "0/1")
 		}
@@ -602,36 +701,36 @@ func cmdRun(args []string) int {
 	dn := len(distinct)
 	ev := Evidence{PropertyID: p.ID, Tier: *tier, Seed: int64(*seed), Level: "exploration", WallS: wall, Violations: confirmed,
 		Coverage: map[string]interface{}{
-			"evaluations":            tot.Runs,
-			"distinct_nontrivial":    dn,
-			"nontrivial_runs":        tot.NonTrivial,
-			"rule":                   p.Rule,
-			"samples":                samples,
-			"ops_total":              tot.OpsTotal,
-			"simulated_ticks_total":  tot.TicksTotal,
-			"runs_per_hour":          int64(float64(tot.Runs) / wall * 3600),
-			"verif_seed":             *seed,
-			"run_seed_derivation":    "splitmix64(VERIF_SEED, property id, run index); run i is the same run for any worker count",
-			"faults_fired":           tot.Fired,
-			"probes":                 tot.Probes,
-			"probes_unfired":         unfired,
-			"abstract_states":        len(states),
-			"distinct_schedules_executed": len(scheds),
+			"evaluations":                           tot.Runs,
+			"distinct_nontrivial":                   dn,
+			"nontrivial_runs":                       tot.NonTrivial,
+			"rule":                                  p.Rule,
+			"samples":                               samples,
+			"ops_total":                             tot.OpsTotal,
+			"simulated_ticks_total":                 tot.TicksTotal,
+			"runs_per_hour":                         int64(float64(tot.Runs) / wall * 3600),
+			"verif_seed":                            *seed,
+			"run_seed_derivation":                   "splitmix64(VERIF_SEED, property id, run index); run i is the same run for any worker count",
+			"faults_fired":                          tot.Fired,
+			"probes":                                tot.Probes,
+			"probes_unfired":                        unfired,
+			"abstract_states":                       len(states),
+			"distinct_schedules_executed":           len(scheds),
 			"context_switches_inside_library_calls": tot.Probes["multi_switches"],
-			"abstract_state_measure": "distinct (component, target, fill class, cursor/unparsed class, last operation) tuples visited after an operation",
-			"max_ticks_per_call":     tot.MaxCall,
-			"tick_budget_of_that_call": tot.MaxCallBud,
-			"aborted_runs":           tot.Aborted,
+			"abstract_state_measure":                "distinct (component, target, fill class, cursor/unparsed class, last operation) tuples visited after an operation",
+			"max_ticks_per_call":                    tot.MaxCall,
+			"tick_budget_of_that_call":              tot.MaxCallBud,
+			"aborted_runs":                          tot.Aborted,
 			"other_property_clauses_seen_not_reported_here": tot.Others,
-			"known_findings_seen":    knownSeen,
+			"known_findings_seen":                           knownSeen,
 			"determinism_runs_reexecuted_in_second_process": detChecked,
-			"determinism_digest_mismatches":                detMismatch,
-			"determinism_tick_only_mismatches":             tickMismatch,
-			"truncated_by_wall_clock_cap": tot.Truncated,
-			"yield_points":           simyield.NumSites,
-			"real_components":        p.Real,
-			"stubbed_components":     p.Stub,
-			"workers":                *workers,
+			"determinism_digest_mismatches":                 detMismatch,
+			"determinism_tick_only_mismatches":              tickMismatch,
+			"truncated_by_wall_clock_cap":                   tot.Truncated,
+			"yield_points":                                  simyield.NumSites,
+			"real_components":                               p.Real,
+			"stubbed_components":                            p.Stub,
+			"workers":                                       *workers,
 		},
 		Assumptions: []string{
 			"readers and writers honour the io.Reader / io.Writer contracts and always return; readers return (0,nil) at most twice in a row",
